@@ -55,7 +55,8 @@ _claim('C06',
        "C06.R1 every option carrier is bound from caller to callee at every call / partial / pool dispatch on every "
        "evaluated path, down to the stage it configures (positional starmap tuples included); C06.R2 carriers are only "
        "replaced by the defaulting idiom with signature-equal literals; C06.R3 configuration keys are formals and do "
-       "not collide at ** sites; C06.R4 sibling call sites of one helper forward the same options.",
+       "not collide at ** sites; C06.R4 sibling call sites of one helper forward the same options; C06.R5 every "
+       "stop_method dispatches to its stop function with sd_thresh / rilling_thresh[0..2] / max_iters on the formals they configure.",
        "how much an option changes the numbers.",
        "resolved call graph + argument binding (keyword, positional, **, functools.partial, starmap tuples) on evaluated paths")
 _claim('C08',
@@ -77,7 +78,7 @@ _claim('C13',
        "C13.R1 each criterion of is_good in boolean/comparison normal form vs. the documented one; C13.R2 a segment is "
        "labelled only under all(is_good(that slice, caller's phase_edge)) after the mask veto on the same slice, "
        "return_good=False substitutes an all-true vector; C13.R3 the container forwards its tolerance to the stored "
-       "criteria function and shares its default with is_good and get_cycle_vector; C13.R4 the slice-cache boundaries the container's flag is computed over.",
+       "criteria function, shares its default with is_good and get_cycle_vector and binds no other criteria parameter away from is_good's default; C13.R4 the slice-cache boundaries the container's flag is computed over.",
        "that the slice looked at is the whole wrap-to-wrap segment is C12.R1.",
        "boolean normal forms + path conditions of the labelling store + argument binding")
 _claim('C18',
